@@ -42,6 +42,9 @@ def cases(run: Run):
     # ... and with an output step of several physics steps, the configured stop inside a save interval and the run going well past it: rows written at
     # the steps between two saves (observations, tasks) must still find their epochs
     k = rng.choice([3, 4, 5])
+    # a target tracked by two engines (one estimate, written once); manoeuvre detection on with a detection on a step between two saves
+    out.append({"dt": 60, "out": rng.choice([60, 120]), "span": 240, "steps": 4, "cuts": [], "ns": 2, "nt": 2, "truth_only": False, "start_sec": 0, "seed": rng.randint(1, 999), "shared": True})
+    out.append({"dt": 60, "out": 180, "span": 480, "steps": 8, "cuts": rng.choice([[], [4]]), "ns": 2, "nt": 2, "truth_only": False, "start_sec": 0, "seed": rng.randint(1, 999), "md": True})
     out.append({"dt": 60, "out": 60 * k, "span": 60 * rng.randint(1, k - 1) + 60 * k * rng.choice([0, 1]), "steps": 2 * k + rng.randint(1, k), "cuts": rng.choice([[], [k + 1]]),
                 "ns": 1, "nt": 2, "truth_only": False, "start_sec": 0, "seed": rng.randint(1, 999)})
     return out
@@ -62,7 +65,13 @@ def build_case(c):
         v = v / np.linalg.norm(v) * np.sqrt(398600.4418 / np.linalg.norm(r))
         targets.append(scen.target_cfg(10001 + k, r, v))
     eng = [scen.engine_cfg(1, targets, sensors)]
+    if c.get("shared") and len(sensors) >= 2:
+        eng = [scen.engine_cfg(1, targets, sensors[:1]), scen.engine_cfg(2, targets[:1], sensors[1:])]
     events = []
+    if c.get("md"):
+        when = scen.iso(start + timedelta(seconds=2 * c["dt"]))
+        events.append({"scope": "agent_propagation", "scope_instance_id": 10001, "start_time": when, "end_time": when, "event_type": "impulse",
+                       "thrust_vector": [0.0, 0.03, 0.01], "thrust_frame": "eci", "planned": False})
     for ev in c.get("events", []):
         when = scen.iso(start + timedelta(seconds=ev["step"] * c["dt"]))
         if ev["kind"] == "add":
@@ -77,6 +86,8 @@ def build_case(c):
             events.append({"scope": "scenario_step", "scope_instance_id": 0, "start_time": when, "end_time": when, "event_type": "agent_removal",
                            "tasking_engine_id": 1, "agent_id": ev["tid"], "agent_type": "target"})
     cfg = scen.scenario_cfg(start, c["dt"], c["span"], eng, out_step=c["out"], truth_only=c["truth_only"], seed=c["seed"], events=events)
+    if c.get("md"):
+        cfg["estimation"]["sequential_filter"]["maneuver_detection"] = {"name": "standard_nis", "threshold": 0.05}
     return scen.build(cfg), start
 
 
@@ -140,6 +151,16 @@ def audit_db(path, c, start):
         except sqlite3.OperationalError:
             counts[t], dangling[t] = None, 0
     out["counts"], out["dangling"] = counts, dangling
+    # rows that are equal in every column but their own id
+    dups = {}
+    for t in FK_TABLES:
+        try:
+            cols = [r[1] for r in cur.execute(f"pragma table_info({t})").fetchall() if r[1] != "id"]
+            if cols:
+                dups[t] = cur.execute(f"select count(*) from (select count(*) n from {t} group by {', '.join(cols)} having n > 1)").fetchone()[0]
+        except sqlite3.OperationalError:
+            pass
+    out["dup_rows"] = dups
     agents = {r[0] for r in cur.execute("select unique_id from agents").fetchall()}
     bad_agents = 0
     for t, cols in (("truth_ephemerides", ["agent_id"]), ("estimate_ephemerides", ["agent_id"]), ("observations", ["sensor_id", "target_id"]), ("missed_observations", ["sensor_id", "target_id"]), ("tasks", ["sensor_id", "target_id"])):
@@ -206,6 +227,9 @@ def oracle(run: Run, c, impl):
             fails.append(("fk:epoch", f"{n} of {a['counts'][t]} rows of {t} refer to a julian_date that is not in epochs ({desc})"))
     if a["bad_agents"]:
         fails.append(("fk:agent", f"rows refer to unknown agents ({desc})"))
+    for t, n in a.get("dup_rows", {}).items():
+        if n:
+            fails.append(("rows:duplicate", f"{n} groups of identical rows in {t} ({a['counts'][t]} rows in all) ({desc})"))
     agents = [10001 + k for k in range(c["nt"])] + [60001 + k for k in range(c["ns"])]
     out_epochs = [0] + [k * dt for k in range(1, N + 1) if (k * dt) % out == 0]
     # membership from the event schedule: an agent is written at every output epoch strictly inside its time in the scenario, never
